@@ -100,7 +100,8 @@ Definition struct_len (fld : N) : nat :=
          6 SMBusRoutingInformationUpdateEntry::new(raw as [ty;range;first;phys])  7 PCIMessageFormat::new(v)
          8 IANAMessageFormat::new(v)   9 MCTPMessageBodyHeader::new(false, v as MessageType)
          10 generate_transport_header(dest = v) on a context of address fld   11 generate_smbus_header likewise
-         12 getter / 13 setter over a buffer of any length   14 the unimplemented!() request encoders *)
+         12 getter / 13 setter over a buffer of any length   14 the unimplemented!() request encoders
+         15 a half constructed on its own   16 the constructors that only wrap bytes *)
 Definition hdr_op (what fld : N) (raw : list N) (v : N) : obs :=
   match what with
   | 0 => match field_of fld with
@@ -130,6 +131,26 @@ Definition hdr_op (what fld : N) (raw : list N) (v : N) : obs :=
   | 14 => let id := v mod 256 in
           if (id =? 18) || (id =? 19) || (id =? 21)
           then XPanic (fst (req_stub true ((v / 256) mod 256) fld raw)) else XBad
+  (* 15: a request / response half constructed on its own (MCTPSMBusContextRequest::new(addr) /
+     MCTPSMBusContextResponse::new(addr), no context around it), set_eid(eid), then Get Endpoint ID encoded for destination fld into
+     raw: v = half + 2 * addr + 512 * eid (half 1 = request).  Observed: the buffer, then get_address(), get_eid(), the reported
+     length (255 = refused) *)
+  | 15 => let addr := (v / 2) mod 256 in let eid := (v / 512) mod 256 in
+          let w := if v mod 2 =? 1 then req_get_endpoint_id true addr fld
+                   else resp_get_endpoint_id true addr eid 0 fld 0 0 false in
+          match w raw with
+          | (b, Val r) => XBytes (b ++ [addr; eid; match r with Some n => N.of_nat n mod 256 | None => 255 end])
+          | (b, Panic _) => XPanic b
+          end
+  (* 16: the constructors that only wrap bytes: fld 0 MCTPSMBusHeader::new(), 1 ::default(), 2 ::new_from_buf(raw),
+     3 MCTPControlMessageHeader::new_from_buf, 4 SMBusRoutingInformationUpdateEntry::new_from_buf,
+     5 PCIMessageFormat::new_from_buf, 6 IANAMessageFormat::new_from_buf *)
+  | 16 => match fld with
+          | 0 | 1 => XBytes (zeros 4)
+          | 2 | 4 | 6 => if (length raw =? 4)%nat then XBytes raw else XBad
+          | 3 | 5 => if (length raw =? 2)%nat then XBytes raw else XBad
+          | _ => XBad
+          end
   | 12 => match field_of fld with
           | Some f => if (f_hi f / 8 <? length raw)%nat then XVal (get_field f raw) else XPanic []
           | None => XBad end
